@@ -103,11 +103,11 @@ func curveList(c string, server bool) []tls.CurveID {
 }
 
 type c01Run struct {
-	ops      []core.Op
-	fail     string
-	accepted bool
-	sawHRR   bool
-	resumed  bool
+	ops        []core.Op
+	fail       string
+	accepted   bool
+	sawHRR     bool
+	resumed    bool
 	fragmented bool // the ClientHello does not fit one TLS record
 }
 
@@ -194,6 +194,7 @@ func oneHandshake(p c01Params, keys []ech.Key, clientCfg *tls.Config, backendCfg
 		go func() {
 			defer wg.Done()
 			buf := make([]byte, 32*1024)
+			var scan []byte // client bytes after the first flight not yet cut into records
 			for {
 				n, err := conn.Read(buf)
 				rc.mu.Lock()
@@ -202,14 +203,18 @@ func oneHandshake(p c01Params, keys []ech.Key, clientCfg *tls.Config, backendCfg
 				frozen := rc.frozen
 				rc.mu.Unlock()
 				if !frozen {
-					// a retried hello needs its seal registered before the model sees it
-					for _, c := range chunks {
-						if len(c) > 5 && c[0] == 22 && c[5] == 1 {
-							sess.Register(c)
+					// a retried hello needs its seal registered before the model sees it: walk the TLS records
+					// of the client's byte stream, however the Conn's transport reads happened to cut it
+					scan = append(scan, bytes.Join(chunks, nil)...)
+					for len(scan) >= 5 {
+						n := 5 + (int(scan[3])<<8 | int(scan[4]))
+						if len(scan) < n {
+							break
 						}
-					}
-					if j := bytes.Join(chunks, nil); len(j) > 9 && j[0] == 22 && j[5] == 1 {
-						sess.Register(j)
+						if scan[0] == 22 && n > 5 && scan[5] == 1 {
+							sess.Register(scan[:n])
+						}
+						scan = scan[n:]
 					}
 					logMu.Lock()
 					if len(chunks) > 0 {
